@@ -34,6 +34,7 @@ PROPS = {
                  "and once on the object under test before the snapshot is taken. "
                  "Images may be signed by another tool first and may end in a non-Authenticode entry; bystander objects (a twin, a different image) must be unaffected; one interleaved run in three starts on a cold object; "
                  "a client that blocks in a primitive the scheduler does not own hands the processor over (deadlock is a violation), goroutines started by the code under test are not scheduled; "
+                 "Marshal destinations are zero buffers, pre-sized or reused buffers, or buffers holding the caller's own prefix; one image medium in three is seekable; a database variant has lists of one type that are not adjacent; "
                  "one call in four overwrites the memory it was handed back (results are the caller's); one sequential image run in four has a single failing read (the call it hits is not judged, all others are); sequential runs on signed updates run under a moving simulated clock. "
                  "Non-trivial: mode 1 an operation repeated at least twice; mode 2 at least two clients and one context switch; mode 3 at least two clients. Distinct = distinct event-log hash; "
                  "distinct_schedules = distinct effective context-switch lists."),
@@ -80,7 +81,7 @@ PROPS = {
                  "simulated filesystem), 1-4 updates per run that stay alive to the end, seeded signer latency (simulated time passes inside Sign), optionally 2-3 interleaved signing goroutines; "
                  "two signer certificates with validity windows inside the simulated time span and the clock 1 s - 14 h inside an edge (a signingTime attribute must then lie inside the window: time-strict verifiers); "
                  "the caller changes its payload object after the call; payloads incl. generic well-formed databases (0-5 lists, empty lists anywhere), library *SignatureDatabase objects and a type whose Bytes() is not its wire form; "
-                 "vendor variables with well-known names; the signer may refuse 1-8 requests (also with a temporary error) inside a sequence; instants within an hour of a clock change of the zone; keys of 2047/2049 bits, certificates issued with SHA-384/512 and with foreign name encodings; "
+                 "hash databases whose first list's size field is out of step; a signer certificate with serial number 0; vendor variables with well-known names; the signer may refuse 1-8 requests (also with a temporary error) inside a sequence; instants within an hour of a clock change of the zone; keys of 2047/2049 bits, certificates issued with SHA-384/512 and with foreign name encodings; "
                  "one run in eight first verifies a foreign SHA-384/512 SignedData in the same process. Every run is non-trivial "
                  "(at least one signed update produced and judged); distinct = distinct event-log hash. A second engine runs the same generator with the zone taken from the TZ environment variable of the worker."),
         "exhaustive": lambda tier: False,
@@ -101,7 +102,7 @@ PROPS = {
         "rule": ("Per run a swarm-selected subset of types/owners/operation kinds; start from empty, a repository fixture stream or a generated stream; 1-40 operations "
                  "(Append, AppendSignature, Remove, RemoveSignature, BytesExists, SigDataExists, Exists, AppendList, AppendDatabase with the source kept alive, Restart through a caller buffer that is reused or into the live database, "
                  "Swap = the history continues on a database that was merged into this one; one run in fifteen is a long grow-and-shrink history of one list of 10-40 entries; "
-                 "a third of the runs use owner GUIDs that differ in one field only; restarts also through a reader that delivers 1-13 bytes per call; an encoding kept from an earlier step must stay what it was; both list-level append entry points; "
+                 "restarts also decode the encoded database followed by a list without entries; a third of the runs use owner GUIDs that differ in one field only; restarts also through a reader that delivers 1-13 bytes per call; an encoding kept from an earlier step must stay what it was; both list-level append entry points; "
                  "lists built through the list-level API incl. removes, list restart and lists with a SignatureHeader). "
                  "Non-trivial: at least two successful mutations and a non-empty view at some step. Distinct = distinct event-log hash; model states = distinct structural snapshots of the database."),
         "exhaustive": lambda tier: False,
@@ -120,7 +121,7 @@ PROPS = {
         "rule": ("Per run: 1-3 of PK/KEK/db/dbx, optionally an ordinary predefined variable and a generated one; values from a small universe (hash databases of 0-9 entries, "
                  "certificate databases, multi-list databases, databases ending in a header-only list, generic well-formed databases of 0-5 lists with empty lists anywhere, raw bytes of 0-400 bytes), optionally a second variable with the same name under another GUID; ops WriteVar / WriteSignedUpdate / "
                  "WriteBlob (the same Marshallable object reused) / GetVar / GetVarInto (one destination object reused) / GetVarWithAttributes / typed Get* / Reopen; stores pre-populated with extra attribute bits; "
-                 "typed reads compare the decoded structure, not only the bytes; plain writes of values that only begin like an authentication descriptor; variable definitions rebuilt by the caller; a second store alive in the process; "
+                 "values that begin with their variable's own attribute mask; one run in three lets simulated time pass between operations (starting just before a time field gains a digit); typed reads compare the decoded structure, not only the bytes; plain writes of values that only begin like an authentication descriptor; variable definitions rebuilt by the caller; a second store alive in the process; "
                  "in one run of five the byte store underneath fails at 1-4 seeded calls (a write that reports the failure leaves the variable indeterminate until the next acknowledged write, a failing read is not judged, every acknowledged write is read back exactly). Non-trivial: a read of a "
                  "variable that has been written at least twice. Distinct = distinct event-log hash."),
         "exhaustive": lambda tier: False,
